@@ -1323,6 +1323,18 @@ class Compiler:
             scope=scope, rscope=rscope
         )
 
+        # ... and so do the translation settings (domain, context and
+        # target language) of the elements that were left by the failure.
+        i18n = identifier("__i18n", id(node))
+        body += template(
+            "i18n = (__i18n_domain, __i18n_context, target_language)",
+            i18n=i18n
+        )
+        restore_scope += template(
+            "__i18n_domain, __i18n_context, target_language = i18n",
+            i18n=i18n
+        )
+
         # The error variable is defined for the fallback only
         names = (node.name, )
         enter_error = list(self._enter_assignment(names))
